@@ -192,7 +192,7 @@ Definition truthy_arg (a : arg) : bool :=
 Definition write_meth (m : wmeth) (a : arg) : result bytes :=
   match m, a with
   | WType, AStr s => write_type s
-  | WByte, AInt z => if is_byte z then Ok [z] else Internal ValueErrorI
+  | WByte, AInt z => if is_byte z then Ok [z] else Diag 5
   | WVu32, AInt z => write_vu32 z
   | WRef, ARef sp i => write_ref (sp, i)
   | WRef, _ => Internal AssertionError
